@@ -1,0 +1,172 @@
+//go:build verif
+
+// Contracts for the deductive verifier in /verif (govc). Only compiled with -tags verif.
+
+package asserts
+
+import "time"
+
+//@ func assert_
+//@   requires b
+
+func assert_(b bool) {}
+
+// ---- ghost vocabulary ----------------------------------------------------------
+// Never assigned by any contract, hence immutable uninterpreted functions.
+
+//@ ghost sigContent(iface) slice
+//@ ghost sigEnc(iface) slice
+//@ ghost decodedSig(slice) ref
+//@ ghost verifyOK(iface, slice, ref) bool
+//@ ghost checkerOK(func, iface, ref, int, int) bool
+
+// ---- assumed contracts of interface methods and externals (T5) -----------------
+
+//@ func (asserts.Assertion).AuthorityID
+//@   opaque
+//@ func (asserts.Assertion).SignKeyID
+//@   opaque
+//@ func (asserts.Assertion).SupportedFormat
+//@   opaque
+//@ func (asserts.Assertion).Type
+//@   opaque
+//@ func (asserts.Assertion).Headers
+//@   opaque
+//@ func (asserts.Assertion).Ref
+//@   opaque
+//@ func (asserts.Assertion).Format
+//@   opaque
+//@ func (asserts.customSigner).signKey
+//@   opaque
+//@ func (asserts.timestamped).Timestamp
+//@   opaque
+
+//@ func (asserts.Assertion).Signature
+//@   trusted
+//@   assigns nothing
+//@   ensures result0 == sigContent(recv) && result1 == sigEnc(recv)
+
+//@ func decodeSignature
+//@   trusted
+//@   assigns nothing
+//@   ensures result1 == nil ==> result0 == decodedSig(signature)
+
+//@ func (asserts.PublicKey).verify
+//@   trusted
+//@   assigns nothing
+//@   ensures (result == nil) == verifyOK(recv, content, sig)
+
+//@ func (asserts.Checker)
+//@   trusted
+//@   assigns nothing
+//@   ensures (result == nil) == checkerOK(recv, assert, signingKey, checkTimeEarliest, checkTimeLatest)
+
+//@ func (*AccountKey).canSign
+//@   opaque
+
+//@ func timeMismatchMsg
+//@   trusted
+//@   assigns nothing
+
+// ---- validity windows ------------------------------------------------------------
+
+//@ func (*sinceUntil).isValidAt
+//@   props C18
+//@   ensures result == (!when.Before(su.since) && (su.until.IsZero() || when.Before(su.until)))
+
+//@ func (*sinceUntil).isValidAssumingCurTimeWithin
+//@   props C18
+//@   ensures result == ((latest.IsZero() || (!latest.Before(earliest) && !latest.Before(su.since))) && (su.until.IsZero() || earliest.Before(su.until)))
+
+//@ func lemKnownTimeIsValidAt
+//@   lemma
+//@   props C18
+//@   requires su != nil && !now.IsZero()
+
+// with a known current time (earliest == latest) the window test is exactly validity at that time
+func lemKnownTimeIsValidAt(su *sinceUntil, now time.Time) {
+	assert_(su.isValidAssumingCurTimeWithin(now, now) == su.isValidAt(now))
+}
+
+//@ func lemWindowHasValidInstant
+//@   lemma
+//@   props C18
+//@   requires su != nil && (su.until.IsZero() || su.since.Before(su.until))
+//@   requires su.isValidAssumingCurTimeWithin(earliest, latest)
+//@   ensures exists x time.Time :: !x.Before(earliest) && (latest.IsZero() || !latest.Before(x)) && !x.Before(su.since) && (su.until.IsZero() || x.Before(su.until))
+
+// a window accepted by isValidAssumingCurTimeWithin contains an instant at which the key is valid
+// (for keys with a non-empty validity interval)
+func lemWindowHasValidInstant(su *sinceUntil, earliest, latest time.Time) {}
+
+// ---- checkers ------------------------------------------------------------------
+
+//@ func CheckSigningKeyIsNotExpired
+//@   props C18
+//@   ensures result == nil && signingKey != nil ==> signingKey.isValidAssumingCurTimeWithin(checkTimeEarliest, checkTimeLatest)
+
+//@ func CheckTimestampVsSigningKeyValidity
+//@   props C18
+//@   ensures result == nil && signingKey != nil && specIsTimestamped(assert) ==> signingKey.isValidAt(specTimestamp(assert))
+
+//@ func specIsTimestamped
+//@   pure
+
+func specIsTimestamped(a Assertion) bool {
+	_, ok := a.(timestamped)
+	return ok
+}
+
+//@ func specTimestamp
+//@   pure
+
+func specTimestamp(a Assertion) time.Time {
+	if t, ok := a.(timestamped); ok {
+		return t.Timestamp()
+	}
+	return time.Time{}
+}
+
+//@ func CheckSignature
+//@   props C18
+//@   ensures result == nil && signingKey != nil ==> assert.AuthorityID() == signingKey.AccountID() && signingKey.canSign(assert)
+//@   ensures result == nil && signingKey != nil ==> verifyOK(signingKey.pubKey, sigContent(assert), decodedSig(sigEnc(assert)))
+//@   ensures result == nil && signingKey == nil ==> specIsCustomSigner(assert) && verifyOK(specCustomKey(assert), sigContent(assert), decodedSig(sigEnc(assert)))
+
+//@ func specIsCustomSigner
+//@   pure
+
+func specIsCustomSigner(a Assertion) bool {
+	_, ok := a.(customSigner)
+	return ok
+}
+
+//@ func specCustomKey
+//@   pure
+
+func specCustomKey(a Assertion) PublicKey {
+	if c, ok := a.(customSigner); ok {
+		return c.signKey()
+	}
+	return nil
+}
+
+//@ const [C18] DefaultCheckers: []Checker{CheckSigningKeyIsNotExpired, CheckSignature, CheckTimestampVsSigningKeyValidity, CheckCrossConsistency}
+
+// ---- Database.Check --------------------------------------------------------------
+
+//@ func (*Database).findAccountKey
+//@   trusted
+//@   assigns nothing
+//@   ensures result1 == nil ==> result0 != nil && result0.AccountID() == authorityID
+
+//@ func (*Database).Check
+//@   props C18
+//@   requires db != nil
+//@   ensures result == nil ==> assert.SupportedFormat()
+//@   ensures result == nil ==> forall k int :: 0 <= k && k < len(db.checkers) ==> checkerOK(db.checkers[k], assert, final(accKey), final(earliestTime), final(latestTime))
+//@   ensures result == nil && final(accKey) != nil ==> final(accKey).AccountID() == assert.AuthorityID()
+//@   ensures result == nil && final(accKey) == nil ==> assert.AuthorityID() == ""
+//@   ensures result == nil ==> !final(earliestTime).IsZero() && (final(latestTime) == final(earliestTime) || (final(latestTime).IsZero() && final(earliestTime) == db.earliestTime))
+//@   loop 0: invariant -1 <= idx0 && idx0 < len(db.checkers)
+//@   loop 0: invariant forall k int :: 0 <= k && k <= idx0 ==> checkerOK(db.checkers[k], assert, accKey, earliestTime, latestTime)
